@@ -198,3 +198,14 @@ func autoCfgOpNames() []string {
 	}
 	return out
 }
+
+// autoCfgOpNamesFor returns the sweep ops of the message types whose URL contains sub.
+func autoCfgOpNamesFor(sub string) []string {
+	var out []string
+	for _, a := range AutoCfgs() {
+		if strings.Contains(a.URL, sub) {
+			out = append(out, a.Name())
+		}
+	}
+	return out
+}
